@@ -4,7 +4,8 @@ Uses the scratch worktree /tmp/wt-main (created with `git -C /repo worktree add 
 and the build directory /tmp/vb-main; prints the VIOLATION lines and the summary of each check."""
 import os, subprocess, sys
 V = os.path.dirname(os.path.dirname(os.path.abspath(__file__)))
-WT, VB = "/tmp/wt-main", "/tmp/vb-main"
+TAG = os.environ.get("SEEDTEST_TAG", "main")      # several people can test at once with different tags
+WT, VB = "/tmp/wt-" + TAG, "/tmp/vb-" + TAG
 
 
 def sh(cmd, **kw):
@@ -14,6 +15,8 @@ def sh(cmd, **kw):
 def main():
     name, checks = sys.argv[1], sys.argv[2:]
     head = sh("git -C /repo rev-parse HEAD").stdout.strip()
+    if not os.path.isdir(WT):
+        sh("git -C /repo worktree add --detach %s %s" % (WT, head))
     sh("git -C %s checkout -q --detach %s && git -C %s checkout -- . && git -C %s clean -fdq -e _b" % (WT, head, WT, WT))
     if name != "none":
         r = sh("git -C %s apply %s/seeded/%s/patch.diff" % (WT, V, name))
